@@ -1547,4 +1547,121 @@ theorem Digraph.WF.addEdge {g : Digraph} (hw : g.WF) (u v : Nat) : (g.addEdge u 
     exact ⟨(Digraph.nodes_addNode _ _ _).2 (Or.inl ((Digraph.nodes_addNode _ _ _).2 (Or.inr rfl))),
            (Digraph.nodes_addNode _ _ _).2 (Or.inr rfl)⟩
 
+/-! ### ReachabilityCache level: both SIEVE caches stay exact under the repaired DFS -/
+
+/-- every binding a SIEVE cache can return is the exact reach set of its key -/
+def SieveExact (adjf : Nat → List Nat) (s : Sieve) : Prop := ∃ m, s.Inv ∧ s.Sub m ∧ CacheExact adjf m
+
+/-- representation relation for one direction that also carries the other direction's cache untouched -/
+def dirRepF (adjI adjO : Nat → List Nat) : Dir → (Sieve × Sieve) → Ideal → Prop
+  | .inb, s, m => (s.1.Inv ∧ s.1.Sub m) ∧ SieveExact adjO s.2
+  | .outb, s, m => (s.2.Inv ∧ s.2.Sub m) ∧ SieveExact adjI s.1
+  | .both, s, _ => SieveExact adjI s.1 ∧ SieveExact adjO s.2
+
+theorem dirCache_lawfulF (adjI adjO : Nat → List Nat) (d : Dir) : Lawful (dirCache d) (dirRepF adjI adjO d) := by
+  have hl := dirCache_lawful d
+  cases d with
+  | inb =>
+    exact ⟨fun s m k h => ⟨hl.get_rep s m k h.1, h.2⟩, fun s m k v h hv => hl.get_hit s m k v h.1 hv,
+           fun s m k v h => ⟨hl.put_rep s m k v h.1, h.2⟩⟩
+  | outb =>
+    exact ⟨fun s m k h => ⟨hl.get_rep s m k h.1, h.2⟩, fun s m k v h hv => hl.get_hit s m k v h.1 hv,
+           fun s m k v h => ⟨hl.put_rep s m k v h.1, h.2⟩⟩
+  | both =>
+    exact ⟨fun s m k h => h, fun s m k v h hv => (by cases hv), fun s m k v h => h⟩
+
+structure RCInv (rc : RC) : Prop where
+  inE : SieveExact (rc.cg.dg.adj .inb) rc.inC
+  outE : SieveExact (rc.cg.dg.adj .outb) rc.outC
+
+theorem cacheExact_nil (adjf : Nat → List Nat) : CacheExact adjf [] := by
+  intro k v h; simp [Dawgs.C16.Ideal.get] at h
+
+theorem sieveExact_new (adjf : Nat → List Nat) (c : Int) : SieveExact adjf (Sieve.new c) :=
+  ⟨[], Sieve.inv_new c, Sieve.sub_new c, cacheExact_nil adjf⟩
+
+theorem RC.componentReach_terminates (rc : RC) (c : Nat) (d : Dir) : (rc.componentReach c d).isSome = true := by
+  unfold RC.componentReach
+  have := reachDFS_terminates (dirCache d) (rc.cg.dg.adj d) rc.cg.dg.nodes rc.fixed
+    (rc.cg.dg.adj_sub_nodes d) (rc.cg.dg.adj_length_le d) (rc.inC, rc.outC) c
+  unfold RC.k
+  cases h : reachDFS (dirCache d) (rc.cg.dg.adj d) rc.fixed (dfsFuel rc.cg.dg.nodes.length) (rc.inC, rc.outC) c with
+  | none => rw [h] at this; simp at this
+  | some p => simp
+
+/-- one `componentReachDFS` call of the repaired cache: returns, answers exactly, keeps both caches exact -/
+theorem RC.componentReach_fixed (rc : RC) (hf : rc.fixed = true) (hi : RCInv rc) (c : Nat) (d : Dir) :
+    ∃ rc' r, rc.componentReach c d = some (rc', r) ∧ ExactBits (rc.cg.dg.adj d) c r ∧ RCInv rc' ∧
+      rc'.cg = rc.cg ∧ rc'.fixed = true := by
+  have hterm := rc.componentReach_terminates c d
+  unfold RC.componentReach at hterm ⊢
+  cases h : reachDFS (dirCache d) (rc.cg.dg.adj d) rc.fixed (dfsFuel rc.k) (rc.inC, rc.outC) c with
+  | none => rw [h] at hterm; simp at hterm
+  | some p =>
+    obtain ⟨cs, r⟩ := p
+    refine ⟨{ rc with inC := cs.1, outC := cs.2 }, r, rfl, ?_⟩
+    rw [hf] at h
+    have hl := dirCache_lawfulF (rc.cg.dg.adj .inb) (rc.cg.dg.adj .outb) d
+    obtain ⟨mi, hi1, hi2, hi3⟩ := hi.inE
+    obtain ⟨mo, ho1, ho2, ho3⟩ := hi.outE
+    cases d with
+    | inb =>
+      have := reachDFS_fixed_exact (dirCache .inb) _ (rc.cg.dg.adj .inb) hl _ (rc.inC, rc.outC) mi
+        ⟨⟨hi1, hi2⟩, hi.outE⟩ hi3 c cs r h
+      obtain ⟨hex, m', hrep, hm'⟩ := this
+      exact ⟨hex, ⟨⟨m', hrep.1.1, hrep.1.2, hm'⟩, hrep.2⟩, rfl, hf⟩
+    | outb =>
+      have := reachDFS_fixed_exact (dirCache .outb) _ (rc.cg.dg.adj .outb) hl _ (rc.inC, rc.outC) mo
+        ⟨⟨ho1, ho2⟩, hi.inE⟩ ho3 c cs r h
+      obtain ⟨hex, m', hrep, hm'⟩ := this
+      exact ⟨hex, ⟨hrep.2, ⟨m', hrep.1.1, hrep.1.2, hm'⟩⟩, rfl, hf⟩
+    | both =>
+      have := reachDFS_fixed_exact (dirCache .both) _ (rc.cg.dg.adj .both) hl _ (rc.inC, rc.outC) []
+        ⟨hi.inE, hi.outE⟩ (cacheExact_nil _) c cs r h
+      obtain ⟨hex, m', hrep, hm'⟩ := this
+      exact ⟨hex, ⟨hrep.1, hrep.2⟩, rfl, hf⟩
+
+/-- component-level query history: a list of `componentReachDFS(c, d)` calls; returns the answers -/
+def RC.runQueries : RC → List (Nat × Dir) → Option (RC × List Nat)
+  | rc, [] => some (rc, [])
+  | rc, (c, d) :: qs =>
+    match rc.componentReach c d with
+    | none => none
+    | some (rc', r) =>
+      match RC.runQueries rc' qs with
+      | none => none
+      | some (rc'', rs) => some (rc'', r :: rs)
+
+theorem RC.runQueries_fixed (rc : RC) (hf : rc.fixed = true) (hi : RCInv rc) (qs : List (Nat × Dir)) :
+    ∃ rc' rs, rc.runQueries qs = some (rc', rs) ∧ RCInv rc' ∧ rc'.cg = rc.cg ∧ rc'.fixed = true ∧
+      rs.length = qs.length ∧
+      ∀ i (h : i < qs.length) (h' : i < rs.length), ExactBits (rc.cg.dg.adj qs[i].2) qs[i].1 rs[i] := by
+  induction qs generalizing rc with
+  | nil => exact ⟨rc, [], rfl, hi, rfl, hf, rfl, fun i h => by simp at h⟩
+  | cons q qs ih =>
+    obtain ⟨c, d⟩ := q
+    obtain ⟨rc1, r, h1, hex, hi1, hcg1, hf1⟩ := rc.componentReach_fixed hf hi c d
+    obtain ⟨rc2, rs, h2, hi2, hcg2, hf2, hlen, hall⟩ := ih rc1 hf1 hi1
+    refine ⟨rc2, r :: rs, ?_, hi2, hcg2.trans hcg1, hf2, by simp [hlen], ?_⟩
+    · simp [RC.runQueries, h1, h2]
+    · intro i h h'
+      cases i with
+      | zero => simpa using hex
+      | succ j =>
+        simp only [List.getElem_cons_succ]
+        have := hall j (by simpa using h) (by simpa using h')
+        rw [hcg1] at this
+        exact this
+
+/-- bit sets with the same members are equal -/
+theorem bits_ext {a b : Nat} (h : ∀ x, hasBit a x = hasBit b x) : a = b := Nat.eq_of_testBit_eq h
+
+theorem ExactBits.unique {adjf : Nat → List Nat} {c a b : Nat} (ha : ExactBits adjf c a) (hb : ExactBits adjf c b) :
+    a = b := by
+  apply bits_ext
+  intro x
+  have h1 := ha x
+  have h2 := hb x
+  cases h : hasBit a x <;> cases h' : hasBit b x <;> simp_all
+
 end Dawgs.C15
